@@ -1,8 +1,8 @@
 (** C12 -- brace, range, tilde and filename expansion yield exactly the specified words.
     Statements only; proofs are in Proofs/. *)
 From Coq Require Import List NArith ZArith.
-From Cicada Require Import Base.Chars Base.Tag Model.Expand Model.ExpandRef
-  Proofs.ExpandBasics Proofs.BraceProofs Proofs.BraceWitness.
+From Cicada Require Import Base.Chars Base.Tag Base.Regex Gen.ShellRegexes Model.Expand Model.ExpandRef
+  Proofs.ExpandBasics Proofs.BraceProofs Proofs.BraceWitness Model.RangeGlobVariant Proofs.RangeGlobVariantProofs.
 Import ListNotations.
 Local Open Scope N_scope.
 
@@ -95,6 +95,29 @@ Example C12_single_alternative :
   brace_getitem [123; 97; 125; 123; 98; 44; 99; 125] 0 = Ok ([[123; 97; 125; 98]; [123; 97; 125; 99]], []).
 Proof. exact single_alternative_group. Qed.
 
+(** About three PROPOSED repairs (Model/RangeGlobVariant.v transcribes the patched code; notes/C12-fix-3/4/5.patch).
+    fix-3: the text around the braces is kept -- for the leftmost match, whose context is the text of the token. *)
+Theorem C12_variant_affixes : forall t pre g1 g2 g4 post a b s,
+  tag_is_empty (fst t) = true -> rx_search rx_brace_range (snd t) = true ->
+  find_range_ctx (snd t) = Some (pre, (g1, g2, g4), post) ->
+  parse_i32 g1 = Some a -> parse_i32 g2 = Some b -> (match g4 with None => Some 1%Z | Some d => parse_i32 d end) = Some s ->
+  range_sel_v t = Ok (Repl (map (fun z => retag (pre ++ z_to_dec z ++ post)) (range_ref a b s))).
+Proof. exact range_sel_v_affixes. Qed.
+Theorem C12_variant_context : forall s pre caps post,
+  find_range_ctx s = Some (pre, caps, post) -> (exists mid, s = pre ++ 123 :: mid ++ 125 :: post) /\ find_range s = Some caps.
+Proof. intros s pre caps post H. split; [exact (find_range_ctx_text s pre caps post H) | exact (find_range_ctx_agrees s pre caps post H)]. Qed.
+(** fix-4: an operand that does not parse skips that token; the pass never takes the early return, so it is a flat_map. *)
+Theorem C12_variant_never_aborts : forall toks, (forall t, In t toks -> exists d, range_sel_v t = Ok d) ->
+  expand_brace_range_v toks = Ok (flat_map (sel_tokens range_sel_v) toks).
+Proof. exact expand_brace_range_v_in_place. Qed.
+(** fix-5: a kept path has no directory component with a leading dot unless the pattern component at the same distance
+    from the end has one too (a star never matches a leading dot); the old rule for the last component still applies. *)
+Theorem C12_variant_hidden_dir : forall pattern show p, glob_keep_v pattern show p = true ->
+  glob_keep show p = true /\
+  forall k comp, nth_error (dirs_rev p) k = Some comp -> starts_with [46] comp = true -> comp <> [46] -> comp <> [46; 46] ->
+  starts_with [46] (nth k (dirs_rev pattern) []) = true.
+Proof. intros pattern show p H. split; [exact (glob_keep_v_weaker pattern show p H) | exact (glob_keep_v_no_hidden_dir pattern show p H)]. Qed.
+
 Check C12_brace : forall t, wf_term t = true -> brace_getitem (render_term t) 0 = Ok (den_term t, []).
 Check C12_order : forall (sel : token -> res selr) toks,
   (forall t, In t toks -> exists d, sel t = Ok d /\ d <> Abort) ->
@@ -128,4 +151,8 @@ Print Assumptions C12_glob_order.
 Print Assumptions C12_refuted.
 Print Assumptions C12_refuted_affixes.
 Print Assumptions C12_brace_any_group.
+Print Assumptions C12_variant_affixes.
+Print Assumptions C12_variant_context.
+Print Assumptions C12_variant_never_aborts.
+Print Assumptions C12_variant_hidden_dir.
 Print Assumptions C12_range_total.
